@@ -50,6 +50,8 @@ pub fn run(lines: &[String]) -> Vec<String> {
     let mut workers: HashMap<u64, Sender<(Job, Sender<String>)>> = HashMap::new();
     let mut slots: HashMap<u64, Fut> = HashMap::new();
     let mut logpos = 0usize;
+    let mut conc_progs: Vec<(usize, Vec<Vec<String>>)> = Vec::new();
+    let mut conc_sched: Vec<crate::sched::Ev> = Vec::new();
     for line in lines {
         let t: Vec<&str> = line.split_whitespace().collect();
         if t.is_empty() {
@@ -172,8 +174,93 @@ pub fn run(lines: &[String]) -> Vec<String> {
                 }
                 logpos = log.len();
             }
+            "conc_thread" => {
+                // conc_thread <tid> <op...> ; ops separated by '/'
+                let tid: usize = t[1].parse().unwrap();
+                let ops: Vec<Vec<String>> = t[2..].join(" ").split(" / ").map(|o| o.split_whitespace().map(|x| x.to_string()).collect()).collect();
+                conc_progs.push((tid, ops));
+            }
+            "conc_sched" => {
+                for e in &t[1..] {
+                    let p: Vec<&str> = e.split(':').collect();
+                    let mult = if p[2] == "all" { shard_count() } else { p[2].parse().unwrap() };
+                    conc_sched.push(crate::sched::Ev { tid: p[0].parse().unwrap(), kind: p[1].parse().unwrap(), mult });
+                }
+            }
+            "conc_run" => {
+                crate::sched::install(conc_sched.clone());
+                let mut hs = Vec::new();
+                let (dtx, drx) = channel::<(usize, Vec<String>)>();
+                for (tid, ops) in conc_progs.drain(..) {
+                    let dtx = dtx.clone();
+                    hs.push(std::thread::spawn(move || {
+                        crate::sched::reset_thread();
+                        crate::sched::register(tid);
+                        let mut res = Vec::new();
+                        for op in &ops {
+                            res.push(conc_op(op));
+                        }
+                        crate::sched::register(usize::MAX);
+                        let _ = dtx.send((tid, res));
+                    }));
+                }
+                let n = hs.len();
+                let mut done = 0;
+                let deadline = std::time::Instant::now() + std::time::Duration::from_secs(8);
+                while done < n {
+                    match drx.recv_timeout(deadline.saturating_duration_since(std::time::Instant::now())) {
+                        Ok((tid, res)) => {
+                            done += 1;
+                            out.push(format!("conc_done {} {}", tid, res.join(" ; ")));
+                        }
+                        Err(_) => break,
+                    }
+                }
+                let (st, total) = crate::sched::progress();
+                out.push(format!("conc_progress {} {} stuck={} mismatch={}", st, total, crate::sched::STUCK.load(std::sync::atomic::Ordering::SeqCst), crate::sched::MISMATCH.load(std::sync::atomic::Ordering::SeqCst)));
+                crate::sched::uninstall();
+                if done < n {
+                    out.push(format!("conc_blocked {} of {} threads never returned", n - done, n));
+                    // the blocked threads hold cache locks: nothing more can be observed in this process
+                    return out;
+                }
+                conc_sched.clear();
+            }
             other => out.push(format!("unknown directive {}", other)),
         }
     }
     out
+}
+
+fn shard_count() -> usize {
+    (std::thread::available_parallelism().map_or(1, usize::from) * 4).next_power_of_two()
+}
+
+/// one operation of a concurrent program (runs on a registered replay thread)
+fn conc_op(t: &[String]) -> String {
+    match t[0].as_str() {
+        "call" => {
+            let recv: u64 = t[2].parse().unwrap();
+            let a: Vec<u64> = t[3..].iter().map(|x| x.parse().unwrap()).collect();
+            format!("ret {}", do_call(&t[1], recv, &a))
+        }
+        "inv_tag" => format!("inv {}", cachelito_core::invalidate_by_tag(&t[1])),
+        "inv_event" => format!("inv {}", cachelito_core::invalidate_by_event(&t[1])),
+        "inv_dep" => format!("inv {}", cachelito_core::invalidate_by_dependency(&t[1])),
+        "inv_cache" => format!("inv {}", cachelito_core::invalidate_cache(&t[1])),
+        "inv_with" => {
+            let keys: Vec<String> = t[2..].iter().map(|x| x.replace("%20", " ")).collect();
+            format!("inv {}", cachelito_core::invalidate_with(&t[1], |k| keys.iter().any(|x| x == k)))
+        }
+        "inv_all_with" => {
+            let pairs: Vec<(String, String)> = t[1..].iter().map(|x| { let mut p = x.splitn(2, ':'); (p.next().unwrap().to_string(), p.next().unwrap_or("").replace("%20", " ")) }).collect();
+            format!("inv {}", cachelito_core::invalidate_all_with(|c, k| pairs.iter().any(|(pc, pk)| pc == c && pk == k)))
+        }
+        "stats_get" => match cachelito_core::stats_registry::get(&t[1]) {
+            Some(s) => format!("stats {} {}", s.hits(), s.misses()),
+            None => "stats none".into(),
+        },
+        "stats_reset" => format!("reset {}", cachelito_core::stats_registry::reset(&t[1])),
+        o => format!("unknown op {}", o),
+    }
 }
